@@ -111,11 +111,16 @@ fn_names_that_imply_ordered_windowed_situation = {
 fn_names_not_allowed_in_project = {
     "ngroup",
     "_ngroup",
+    "uniform",  # one draw per row, not an aggregation
+    "_uniform",
 }.union(fn_names_that_imply_ordered_windowed_situation)
 
 
 # fns that don't have consistent windowed implementations we want to support
-fn_names_that_contradict_windowed_situation = set()
+fn_names_that_contradict_windowed_situation = {
+    "uniform",  # one draw per row, not a function of a window
+    "_uniform",
+}
 
 
 # a competing idea should be to remove ordering if
